@@ -150,7 +150,7 @@ Init == \E c \in Coins : \E sh \in {x \in Shapes : ShapeOK(c, x)} : InitWith(c, 
 
 ----------------------------------------------------------------------------
 (* Key-supply mechanisms.  A pass p is a record                               *)
-(*   [mech, K, I, ht, scr, reg, sec, fresh]                                   *)
+(*   [mech, K, I, ht, scr, reg, sec, fresh, ic, sc, via]                      *)
 (*  mech = "lookup":   a table hash160 -> key built from the secrets of K     *)
 (*  mech = "wifs":     the WIF texts of K                                     *)
 (*  mech = "keychain": a keychain in which the derivation paths of the keys   *)
@@ -165,7 +165,17 @@ Init == \E c \in Coins : \E sh \in {x \in Shapes : ShapeOK(c, x)} : InitWith(c, 
 (*      every input (so I = Ins); "set" / "list" / "tuple" = an explicit      *)
 (*      collection of indices - an explicitly EMPTY collection asks for       *)
 (*      nothing and nothing may change.                                       *)
+(*  sc: how the redeem / witness scripts are handed over (scr = TRUE): a list,  *)
+(*      a tuple, a set, or a ONE-SHOT iterable (a generator, iter(list)) -    *)
+(*      all of them are "the scripts".                                        *)
+(*  via: how a keychain pass / edit registers the key paths reg: "paths" =    *)
+(*      one add_key_paths(master, paths) call per master; "keys12"/"keys21"   *)
+(*      = one add_keys_path([master 1, master 2], path) call per path over    *)
+(*      BOTH masters in that order (each key is then found under its own      *)
+(*      master, whichever comes first in the call).                           *)
 Containers == {"none", "set", "list", "tuple"}
+ScriptContainers == {"list", "tuple", "set", "gen", "iter"}
+RegVias == {"paths", "keys12", "keys21"}
 Mechs == {"lookup", "wifs", "keychain"}
 (* Front-ends.  "lookup" is Tx.sign(table), "wifs" is tx_utils.sign_tx(tx, wifs), "keychain" is        *)
 (* Solver.sign(keychain): all three sign in place and return; how far they got is read off           *)
@@ -188,6 +198,7 @@ PassOK(p) == /\ p.mech \in FrontEnds /\ (p.mech = "create_signed" => npass = 0 /
              /\ p.K \subseteq Keys /\ p.I \subseteq Ins /\ p.ht \in HashTypes
              /\ p.scr \in BOOLEAN /\ p.reg \subseteq Keys /\ p.sec \subseteq Masters /\ p.fresh \in BOOLEAN
              /\ p.ic \in Containers /\ (p.ic = "none" => p.I = Ins)
+             /\ p.sc \in ScriptContainers /\ p.via \in RegVias
 
 ----------------------------------------------------------------------------
 (* The action *)
@@ -261,7 +272,7 @@ KcAdd(R, M, S) ==
 (* signatures (NotAccumulated: never more signature items than the puzzle     *)
 (* demands).  Edits only move away from what was signed (version + 1, an      *)
 (* amount - 1, ...), never back.                                              *)
-TV == INSTANCE TxValidate WITH MaxSteps <- 0, MaxInserts <- 0, hts <- <<>>, svs <- <<>>, nops <- <<>>,
+TV == INSTANCE TxValidate WITH MaxSteps <- 0, MaxInserts <- 0, hts <- <<>>, svs <- <<>>, nops <- <<>>, ukinds <- <<>>,
                                sview <- <<>>, orig <- <<>>, ver <- 0, lock <- 0, ins <- <<>>, outs <- <<>>,
                                lastval <- <<>>, steps <- 0, inserts <- 0
 SigVersionOf(i) == IF coin \in ForkIdCoins THEN "forkid"
@@ -288,7 +299,8 @@ NotAccumulated(items) == \A i \in Ins : items[i] <= Need(i)
 
 \* the passes explored by the model-checking configurations (the replay modules choose their own)
 AllPasses == [mech : Mechs, K : SUBSET Keys, I : SUBSET Ins, ht : HashTypes, scr : BOOLEAN,
-              reg : SUBSET Keys, sec : SUBSET Masters, fresh : BOOLEAN, ic : {"none", "set"}]
+              reg : SUBSET Keys, sec : SUBSET Masters, fresh : BOOLEAN, ic : {"none", "set"},
+              sc : {"list"}, via : {"paths"}]
 \* lookup/wifs passes do not use reg/sec; keychain passes do not use K: keep one representative
 Canonical(p) == IF p.mech = "keychain" THEN p.K = {} ELSE p.reg = {} /\ p.sec = {} /\ p.fresh
 \* (configurations override Passes to trade pass variety against depth)
